@@ -52,9 +52,8 @@ theorem lemma_splitOn_append (sep : Char) (t rest : List Char) (h : sep ∉ t) :
   | nil => simp [splitOn]
   | cons c cs ih =>
     simp at h
-    simp only [List.cons_append]
-    unfold splitOn
-    rw [if_neg (by intro e; exact h.1 e.symm), ih h.2]; simp [consHead]
+    have hne : ¬ c = sep := by intro e; exact h.1 e.symm
+    simp only [List.cons_append, splitOn, if_neg hne, ih h.2, consHead]
 
 /-- no token of a split contains the separator -/
 theorem lemma_splitOn_mem (sep : Char) (s t : List Char) (h : t ∈ splitOn sep s) : sep ∉ t := by
@@ -103,9 +102,8 @@ theorem lemma_splitFirst_append (sep : Char) (a p : List Char) (h : sep ∉ a) :
   | nil => simp [splitFirst]
   | cons c cs ih =>
     simp at h
-    simp only [List.cons_append]
-    unfold splitFirst
-    rw [if_neg (by intro e; exact h.1 e.symm), ih h.2]
+    have hne : ¬ c = sep := by intro e; exact h.1 e.symm
+    simp only [List.cons_append, splitFirst, if_neg hne, ih h.2]
 
 theorem lemma_rsplitLast_notin (sep : Char) (s : List Char) (h : sep ∉ s) :
     rsplitLast sep s = (s, none) := by
